@@ -32,6 +32,7 @@ class Cls:
 
 
 def gen_module(rng, modname="tmod"):
+    header.conv = rng.choice(["str", "int"])
     n = rng.randrange(1, 4)
     classes = []
     for i in range(n):
@@ -54,7 +55,9 @@ def gen_module(rng, modname="tmod"):
 
 
 def header(classes):
-    h = "#ifndef T_H\n#define T_H\n#include \"dtoolbase.h\"\n#include <string>\nextern int g_live;\n"
+    if not hasattr(header, "conv"):
+        header.conv = "str"
+    h = "#ifndef T_H\n#define T_H\n#include \"dtoolbase.h\"\n#include <string>\n#include <map>\n#include <vector>\nextern int g_live;\n"
     for c in classes:
         base = " : public %s" % c.base if c.base else ""
         n = c.name
@@ -95,8 +98,27 @@ def header(classes):
         q = (ename + "::") if c.scoped_enum else ""
         h += "  %s flip_%s(%s m) const { return m == %s%s ? %s%s : %s%s; }\n" % (ename, n.lower(), ename, q, c.enum_vals[0][0], q, c.enum_vals[1][0], q, c.enum_vals[0][0])
         h += "public:\n  int _w;\n  int _slots[4];\n};\n"
+    # a class with one converting and several explicit constructors (only the converting one may be used to coerce an argument),
+    # and a class with map / sequence properties whose helper objects must hold exactly one reference to their owner
+    conv = header.conv
+    cstr, cint = ("", "explicit ") if conv == "str" else ("explicit ", "")
+    h += ("class Tag {\nPUBLISHED:\n  Tag() : _n(0) {}\n  %sTag(const std::string &s) : _n((int)s.size()) {}\n  %sTag(int n) : _n(n + 1000) {}\n"
+          "  explicit Tag(double a, double b) : _n((int)(a + b) + 2000) {}\n  Tag(const Tag &o) : _n(o._n) {}\n  int get_n() const { return _n; }\n"
+          "  void merge(const Tag &o) { _n += o._n; }\npublic:\n  int _n;\n};\n") % (cstr, cint)
+    h += ("class Inv {\nPUBLISHED:\n  Inv() { ++g_live; }\n  Inv(const Inv &o) : _stock(o._stock), _notes(o._notes) { ++g_live; }\n  ~Inv() { --g_live; }\n"
+          "  bool has_stock(const std::string &k) const { return _stock.count(k) != 0; }\n"
+          "  int get_stock(const std::string &k) const { std::map<std::string, int>::const_iterator it = _stock.find(k); return it != _stock.end() ? it->second : 0; }\n"
+          "  void set_stock(const std::string &k, int q) { _stock[k] = q; }\n  void clear_stock(const std::string &k) { _stock.erase(k); }\n"
+          "  size_t get_num_stock_items() const { return _stock.size(); }\n"
+          "  std::string get_stock_item(size_t n) const { std::map<std::string, int>::const_iterator it = _stock.begin(); while (n > 0 && it != _stock.end()) { ++it; --n; } return it != _stock.end() ? it->first : std::string(); }\n"
+          "  MAKE_MAP_PROPERTY(stock, has_stock, get_stock, set_stock, clear_stock);\n  MAKE_MAP_KEYS_SEQ(stock, get_num_stock_items, get_stock_item);\n"
+          "  size_t get_num_notes() const { return _notes.size(); }\n  std::string get_note(size_t n) const { return n < _notes.size() ? _notes[n] : std::string(); }\n"
+          "  void set_note(size_t n, const std::string &s) { if (n < _notes.size()) _notes[n] = s; }\n  void add_note(const std::string &s) { _notes.push_back(s); }\n"
+          "  MAKE_SEQ(get_notes, get_num_notes, get_note);\n  MAKE_SEQ_PROPERTY(notes, get_num_notes, get_note, set_note);\n"
+          "private:\n  std::map<std::string, int> _stock;\n  std::vector<std::string> _notes;\n};\n")
+    h += "BEGIN_PUBLISH\nint tag_n(const Tag &t);\nEND_PUBLISH\n"
     h += "BEGIN_PUBLISH\nenum GlobalMode { GM_on = 1, GM_off = 2 };\nint gmode(GlobalMode m);\nint count_live();\n" + "".join("int takes_%s(const %s &o);\n" % (c.name.lower(), c.name) for c in classes) + "END_PUBLISH\n#endif\n"
-    impl = '#include "t.h"\nint g_live = 0;\nint count_live() { return g_live; }\nint gmode(GlobalMode m) { return (int)m * 3; }\n' + "".join("const int %s::limit_%s;\n" % (c.name, c.name.lower()) for c in classes) + "".join("int takes_%s(const %s &o) { return o.who(); }\n" % (c.name.lower(), c.name) for c in classes)
+    impl = '#include "t.h"\nint g_live = 0;\nint count_live() { return g_live; }\nint gmode(GlobalMode m) { return (int)m * 3; }\nint tag_n(const Tag &t) { return t.get_n(); }\n' + "".join("const int %s::limit_%s;\n" % (c.name, c.name.lower()) for c in classes) + "".join("int takes_%s(const %s &o) { return o.who(); }\n" % (c.name.lower(), c.name) for c in classes)
     return h, impl
 
 
@@ -224,6 +246,35 @@ def test_script(classes, rng, modname="tmod"):
         L.append("chk('%s objects alive', m.count_live() == base + %d and sum(x.get_w() for x in ys) == 2 * sum(range(20)), (m.count_live(), base))" % (n, 60 * len(chain(classes, n))))
         L.append("del xs, ys, zs; gc.collect(); chk('%s no leak, no double free', m.count_live() == base, (m.count_live(), base))" % n)
         L.append("")
+    # ---- explicit constructors are not conversions -------------------------------------------------------------------------------------
+    conv = header.conv
+    L.append("chk('Tag constructors', (m.Tag('abcd').get_n(), m.Tag(5).get_n(), m.Tag(1.5, 2.5).get_n()) == (4, 1005, 2004))")
+    bad = "5" if conv == "str" else "'abc'"
+    L.append("t = m.Tag(1.0, 1.0); before = t.get_n()")
+    L.append("chk('explicit Tag constructor is not used to convert an argument', raises(TypeError, m.tag_n, %s) is True and raises(TypeError, t.merge, %s) is True "
+             "and raises(TypeError, m.tag_n, (0.5, 1.0)) is True and raises(TypeError, t.merge, (0.5, 1.0)) is True and t.get_n() == before, "
+             "(raises(TypeError, m.tag_n, %s), raises(TypeError, t.merge, %s), raises(TypeError, m.tag_n, (0.5, 1.0)), t.get_n(), before))" % (bad, bad, bad, bad))
+    L.append("chk('Tag accepted where a Tag is expected', m.tag_n(m.Tag(7)) == 1007)")
+    L.append("del t")
+    # ---- helper objects of map / sequence properties own exactly one reference to their object ---------------------------------------------
+    L += ["gc.collect(); base = m.count_live()",
+          "def refs(o): return sys.getrefcount(o) - 2",
+          "inv = m.Inv(); inv.stock['bolt'] = 40; inv.stock['nut'] = 2; inv.stock['washer'] = 7; inv.add_note('first'); inv.add_note('second')",
+          "pins = [inv] * 8; r0 = refs(inv)",
+          "chk('map property values', inv.stock['bolt'] == 40 and len(inv.stock) == 3 and 'nut' in inv.stock and 'gear' not in inv.stock and inv.stock.get('gear', -1) == -1 "
+          "and sorted(inv.stock.values()) == [2, 7, 40] and sorted(inv.stock.items()) == [('bolt', 40), ('nut', 2), ('washer', 7)] and sorted(inv.stock.keys()) == ['bolt', 'nut', 'washer'])",
+          "chk('sequence property values', (inv.notes[1], len(inv.notes), list(inv.notes), inv.get_notes()) == ('second', 2, ['first', 'second'], ('first', 'second')))",
+          "chk('no reference to the object is left behind by temporaries', refs(inv) == r0, (r0, refs(inv)))",
+          "for name, make in [('stock', lambda: inv.stock), ('notes', lambda: inv.notes), ('stock.values()', lambda: inv.stock.values()), ('stock.items()', lambda: inv.stock.items()), ('stock.keys()', lambda: inv.stock.keys())]:",
+          "    b4 = refs(inv); helper = make(); held = refs(inv); n = len(helper); del helper; after = refs(inv)",
+          "    chk('inv.%s holds one reference while alive and returns it' % name, held == b4 + 1 and after == b4 and n in (2, 3), (b4, held, after))",
+          "b4 = refs(inv); ks = sorted(inv.stock); it = iter(inv.stock); first = next(it); del it; ns = [x for x in inv.notes]; after = refs(inv)",
+          "chk('iterating a map / sequence property leaves no reference to the object behind', after == b4 and ks == ['bolt', 'nut', 'washer'] and ns == ['first', 'second'], (b4, after, ks))",
+          "other = m.Inv(); other.stock['gear'] = 5; view = other.stock.keys(); del other; gc.collect()",
+          "chk('the object behind a live keys() view is not destroyed', m.count_live() == base + 2, (m.count_live(), base))",
+          "ok = m.count_live() == base + 2 and list(view) == ['gear']",
+          "del view; gc.collect(); chk('dropping the view releases the object exactly once', ok and m.count_live() == base + 1, (m.count_live(), base))",
+          "del pins, inv; gc.collect(); chk('Inv no leak, no double free', m.count_live() == base, (m.count_live(), base))", ""]
     L.append("chk('module-level enum and function', m.GM_on == 1 and m.GMOff == 2 and m.gmode(m.GM_off) == 6 and raises(TypeError, m.gmode, 'x') is True)")
     L.append("print('checks=%d failures=%d' % (checks, len(fails)))")
     L.append("sys.exit(1 if fails else 0)")
